@@ -1,4 +1,404 @@
 package main
 
-func cmdCheck(args []string) int    { return 2 }
-func cmdSelftest(args []string) int { return 2 }
+import (
+	"encoding/json"
+	"flag"
+	"fmt"
+	"os"
+	"path/filepath"
+	"runtime"
+	"sort"
+	"strings"
+	"time"
+
+	ex "bklsym/exec"
+
+	"golang.org/x/tools/go/ssa"
+)
+
+// harnessSpec registers one harness function for a property.
+type harnessSpec struct {
+	Pkg      string   // key of pkgSpecs
+	Func     string   // harness function name
+	Tiers    string   // "q", "t" or "qt"
+	Order    bool     // map-iteration order mode (C09)
+	Covers   []string // reachability witnesses that must be hit (vacuity guard)
+	MaxSteps int
+	Bound    string // human description of the bound for this harness
+}
+
+type propSpec struct {
+	ID        string
+	Harnesses []harnessSpec
+	Assume    []string // assumptions / stubs that are part of the claim
+	Outside   string
+}
+
+type knownFinding struct {
+	Property string `json:"property"`
+	ID       string `json:"id"`
+	What     string `json:"what"`
+	Witness  string `json:"witness"` // replay case file under /verif/known
+	Expect   string `json:"expect"`  // native outcome that shows the defect
+	Status   string `json:"status"`  // "known" or "fixed"
+	Commit   string `json:"commit,omitempty"`
+}
+
+func loadKnown() []knownFinding {
+	b, err := os.ReadFile(filepath.Join(verifDir, "known_findings.json"))
+	if err != nil {
+		return nil
+	}
+	var ks []knownFinding
+	if err := json.Unmarshal(b, &ks); err != nil {
+		fmt.Fprintln(os.Stderr, "known_findings.json:", err)
+		os.Exit(2)
+	}
+	return ks
+}
+
+type harnessEvidence struct {
+	Harness      string         `json:"harness"`
+	Package      string         `json:"package"`
+	Bound        string         `json:"bound"`
+	Paths        int            `json:"paths"`
+	OK           int            `json:"paths_ok"`
+	Pruned       int            `json:"paths_pruned_by_assume"`
+	Outside      int            `json:"paths_outside_alphabet"`
+	Inconclusive int            `json:"paths_inconclusive"`
+	Unsupported  int            `json:"paths_unsupported"`
+	Forks        int            `json:"solver_decided_forks"`
+	Decisions    int            `json:"decisions"`
+	Asserts      int            `json:"assert_obligations"`
+	Discharged   int            `json:"assert_discharged"`
+	Candidates   int            `json:"candidates"`
+	Complete     bool           `json:"bound_explored_completely"`
+	Covers       map[string]int `json:"covers"`
+	MissingCover []string       `json:"missing_covers,omitempty"`
+	Reasons      map[string]int `json:"reasons,omitempty"`
+	Queries      map[string]int `json:"queries"`
+	SolverS      float64        `json:"solver_time_s"`
+	WallS        float64        `json:"wall_s"`
+	Steps        int64          `json:"ssa_instructions_executed"`
+	UnderApprox  int            `json:"under_approximated_paths"`
+	Stubs        map[string]int `json:"foreign_calls"`
+	GlobalStores map[string]int `json:"stores_to_package_vars_after_init,omitempty"`
+}
+
+func cmdCheck(args []string) int {
+	fs := flag.NewFlagSet("check", flag.ExitOnError)
+	prop := fs.String("property", "", "property id")
+	tierS := fs.String("tier", "", "quick|thorough")
+	workers := fs.Int("workers", runtime.NumCPU(), "")
+	only := fs.String("only", "", "run only this harness")
+	fs.Parse(args)
+	if *tierS == "" {
+		*tierS = os.Getenv("VERIF_TIER")
+	}
+	if *tierS == "" {
+		*tierS = "quick"
+	}
+	tier := 0
+	if *tierS == "thorough" {
+		tier = 1
+	}
+	seed := 0
+	fmt.Sscan(os.Getenv("VERIF_SEED"), &seed)
+	ps, ok := registry[*prop]
+	if !ok {
+		fmt.Fprintf(os.Stderr, "unknown property %q\n", *prop)
+		return 2
+	}
+	start := time.Now()
+	shared := map[string]*ex.Shared{}
+	replayers := map[string]*replayer{}
+	defer func() {
+		for _, r := range replayers {
+			r.close()
+		}
+	}()
+	getRp := func(pkg string) *replayer {
+		if r, ok := replayers[pkg]; ok {
+			return r
+		}
+		r := newReplayer(pkgSpecs[pkg])
+		replayers[pkg] = r
+		return r
+	}
+
+	var hev []harnessEvidence
+	var samples []any
+	violations := 0
+	var violationLines []string
+	inconclusive := false
+	vacuous := false
+	tracesValidated := 0
+	traceMismatch := 0
+	discrepancies := []string{}
+	totalStates, totalTransitions, totalAsserts, totalDischarged := 0, 0, 0, 0
+	distinct := 0
+	funcsEncoded := map[string][2]int{}
+	known := loadKnown()
+	knownHit := map[string]bool{}
+
+	for _, hs := range ps.Harnesses {
+		if *only != "" && hs.Func != *only {
+			continue
+		}
+		if !strings.Contains(hs.Tiers, (*tierS)[:1]) {
+			continue
+		}
+		sh := shared[hs.Pkg]
+		if sh == nil {
+			var err error
+			sh, err = loadPkg(pkgSpecs[hs.Pkg], tier)
+			if err != nil {
+				fmt.Fprintf(os.Stderr, "load %s: %v\n", hs.Pkg, err)
+				return 2
+			}
+			shared[hs.Pkg] = sh
+		}
+		maxSteps := hs.MaxSteps
+		if maxSteps == 0 {
+			maxSteps = 5_000_000
+		}
+		budget := 20 * time.Minute
+		if tier == 1 {
+			budget = 90 * time.Minute
+		}
+		timeout := 10000
+		if tier == 1 {
+			timeout = 60000
+		}
+		rep, err := ex.Explore(sh, ex.ExploreConfig{
+			Harness: hs.Func, PkgPath: pkgSpecs[hs.Pkg].Path, Workers: *workers,
+			Solver: []string{"z3", "-in"}, TimeoutMS: timeout,
+			Cfg:      ex.Config{MaxSteps: maxSteps, MaxFrames: 20000, OrderMode: hs.Order},
+			Deadline: time.Now().Add(budget), Samples: 6, Verbose: os.Getenv("BKLSYM_VERBOSE") != "",
+		})
+		if err != nil {
+			fmt.Fprintf(os.Stderr, "explore %s: %v\n", hs.Func, err)
+			return 2
+		}
+		he := harnessEvidence{
+			Harness: hs.Func, Package: pkgSpecs[hs.Pkg].Path, Bound: hs.Bound,
+			Paths: rep.Paths, OK: rep.OK, Pruned: rep.Pruned, Outside: rep.Outside,
+			Inconclusive: rep.Inconclusive, Unsupported: rep.Unsupported,
+			Forks: rep.Forks, Decisions: rep.Decisions, Asserts: rep.Asserts, Discharged: rep.Discharged,
+			Candidates: len(rep.Candidates), Complete: rep.Complete, Covers: rep.Covers, Reasons: rep.Reasons,
+			Queries: map[string]int{"sat": rep.Solver.Sat, "unsat": rep.Solver.Unsat, "unknown": rep.Solver.Unknown, "errors": rep.Solver.Errors},
+			SolverS: rep.Solver.Time.Seconds(), WallS: rep.Wall.Seconds(), Steps: rep.Steps,
+			UnderApprox: rep.UnderApprox, Stubs: rep.Foreign, GlobalStores: rep.GlobalStores,
+		}
+		for _, c := range hs.Covers {
+			if rep.Covers[c] == 0 {
+				he.MissingCover = append(he.MissingCover, c)
+			}
+		}
+		if !rep.Complete {
+			inconclusive = true
+		}
+		if len(he.MissingCover) > 0 && rep.Complete && len(rep.Candidates) == 0 {
+			vacuous = true
+		}
+		totalStates += rep.OK + len(rep.Candidates)
+		totalTransitions += rep.Forks
+		totalAsserts += rep.Asserts
+		totalDischarged += rep.Discharged
+		distinct += rep.OK
+
+		// replay gate
+		seen := 0
+		for _, c := range rep.Candidates {
+			seen++
+			if seen > 8 {
+				break
+			}
+			rc := replayCase{Harness: c.Harness, Tier: tier, ND: c.ND, Property: ps.ID, Kind: c.Kind, AssertID: c.AssertID, Msg: c.Msg, Pkg: hs.Pkg, Predict: c.Observes}
+			p, err := writeCase(filepath.Join(verifDir, "replays"), rc)
+			if err != nil {
+				fmt.Fprintln(os.Stderr, err)
+				return 2
+			}
+			ro := getRp(hs.Pkg).run(p, 30*time.Second)
+			if ro.Outcome == "builderror" {
+				fmt.Fprintln(os.Stderr, ro.Detail)
+				return 2
+			}
+			if confirms(c, ro) {
+				violations++
+				what := c.AssertID
+				if c.Kind != "assert" {
+					what = c.Kind + ": " + truncate(c.Msg, 120)
+				}
+				violationLines = append(violationLines, fmt.Sprintf("VIOLATION property=%s replay=%s", ps.ID, p))
+				fmt.Fprintf(os.Stderr, "confirmed: %s in %s (%s) native=%s %s\n", what, hs.Func, c.Pos, ro.Outcome, truncate(ro.Detail, 200))
+				samples = append(samples, map[string]any{"kind": "violation", "harness": hs.Func, "what": what, "nd": c.ND, "replay": p})
+			} else {
+				os.Remove(p)
+				discrepancies = append(discrepancies, fmt.Sprintf("%s: engine %s/%s, native %s", hs.Func, c.Kind, c.AssertID, ro.Outcome))
+				inconclusive = true
+			}
+		}
+		// translator validation on passing paths
+		for i, s := range rep.Samples {
+			rc := replayCase{Harness: hs.Func, Tier: tier, ND: s.ND, Property: ps.ID, Kind: "sample", Pkg: hs.Pkg, Predict: s.Observes}
+			p, err := writeCase(filepath.Join(os.TempDir(), "bklsym-samples"), rc)
+			if err != nil {
+				continue
+			}
+			ro := getRp(hs.Pkg).run(p, 30*time.Second)
+			os.Remove(p)
+			okk := ro.Outcome == "ok"
+			for k, v := range s.Observes {
+				if ro.Obs[k] != v {
+					okk = false
+				}
+			}
+			if okk {
+				tracesValidated++
+			} else {
+				traceMismatch++
+				discrepancies = append(discrepancies, fmt.Sprintf("%s: passing path replays natively as %s (%s)", hs.Func, ro.Outcome, truncate(ro.Detail, 200)))
+				inconclusive = true
+			}
+			if i < 2 {
+				samples = append(samples, map[string]any{"kind": "passing-path instance", "harness": hs.Func, "nd": s.ND, "observes": s.Observes, "decisions": s.Decision})
+			}
+		}
+		hev = append(hev, he)
+		collectFuncs(sh, funcsEncoded)
+	}
+
+	// known findings: replay each witness; report those that still reproduce
+	for _, k := range known {
+		if k.Property != ps.ID {
+			continue
+		}
+		if k.Status == "fixed" {
+			continue
+		}
+		b, err := os.ReadFile(filepath.Join(verifDir, k.Witness))
+		if err != nil {
+			fmt.Fprintf(os.Stderr, "known finding %s: witness missing: %v\n", k.ID, err)
+			return 2
+		}
+		var rc replayCase
+		json.Unmarshal(b, &rc)
+		ro := getRp(rc.Pkg).run(filepath.Join(verifDir, k.Witness), 30*time.Second)
+		if ro.Outcome == k.Expect || (k.Expect == "crash" && (ro.Outcome == "hang" || ro.Outcome == "panic")) {
+			fmt.Printf("KNOWN-FINDING: property=%s %s [%s]\n", ps.ID, k.What, k.ID)
+			knownHit[k.ID] = true
+		} else {
+			fmt.Fprintf(os.Stderr, "note: known finding %s no longer reproduces (native outcome %s)\n", k.ID, ro.Outcome)
+		}
+	}
+
+	for _, l := range violationLines {
+		fmt.Println(l)
+	}
+
+	var fe []string
+	for f, c := range funcsEncoded {
+		fe = append(fe, fmt.Sprintf("%s blocks %d/%d", f, c[0], c[1]))
+	}
+	sort.Strings(fe)
+	if len(samples) == 0 {
+		samples = append(samples, map[string]any{"kind": "none", "note": "no path completed"})
+	}
+	ev := map[string]any{
+		"property_id": ps.ID,
+		"tier":        *tierS,
+		"seed":        seed,
+		"level":       "model_checking",
+		"wall_s":      time.Since(start).Seconds(),
+		"violations":  violations,
+		"assumptions": ps.Assume,
+		"coverage": map[string]any{
+			"states":                        max1(totalStates),
+			"transitions":                   max1(totalTransitions),
+			"traces_validated_against_impl": tracesValidated,
+			"samples":                       samples,
+			"obligations":                   totalAsserts,
+			"discharged":                    totalDischarged,
+			"evaluations":                   max1(totalStates),
+			"distinct_nontrivial":           distinct,
+			"rule":                          "states = feasible terminal paths of the harness (distinct decision vectors; each stands for every value of the symbolic leaves satisfying its path condition); transitions = branch decisions on symbolic data where the solver found both sides feasible; obligations = assertion queries PC ∧ ¬assert, discharged = answered unsat (or concretely true)",
+			"exhaustive":                    !inconclusive,
+			"harnesses":                     hev,
+			"functions_encoded":             fe,
+			"outside_the_bound":             ps.Outside,
+			"trace_mismatches":              traceMismatch,
+			"engine_native_discrepancies":   discrepancies,
+			"known_findings_reproduced":     keys(knownHit),
+			"explanation":                   "bounded symbolic execution of the real SSA of /repo (regenerated this run); every branch on symbolic data and every assertion decided by z3; candidates reported only after native replay",
+		},
+	}
+	os.MkdirAll(filepath.Join(verifDir, "evidence"), 0o755)
+	b, _ := json.MarshalIndent(ev, "", " ")
+	if err := os.WriteFile(filepath.Join(verifDir, "evidence", ps.ID+".json"), b, 0o644); err != nil {
+		fmt.Fprintln(os.Stderr, err)
+		return 2
+	}
+	for _, he := range hev {
+		fmt.Fprintf(os.Stderr, "%s: paths=%d ok=%d pruned=%d cand=%d complete=%v asserts=%d/%d wall=%.1fs missing=%v\n", he.Harness, he.Paths, he.OK, he.Pruned, he.Candidates, he.Complete, he.Discharged, he.Asserts, he.WallS, he.MissingCover)
+		for r, n := range he.Reasons {
+			fmt.Fprintf(os.Stderr, "   reason x%d: %s\n", n, truncate(r, 300))
+		}
+	}
+	for _, d := range discrepancies {
+		fmt.Fprintln(os.Stderr, "discrepancy:", d)
+	}
+	if violations > 0 {
+		return 1
+	}
+	if vacuous {
+		fmt.Println("VACUOUS: a reachability witness was not hit; the harness is broken")
+		return 2
+	}
+	if inconclusive {
+		fmt.Printf("INCONCLUSIVE property=%s: the bound was not explored completely (see evidence); nothing is claimed for the unexplored part\n", ps.ID)
+		return 0
+	}
+	fmt.Printf("PASS property=%s tier=%s states=%d obligations=%d/%d validated=%d wall=%.0fs\n", ps.ID, *tierS, totalStates, totalDischarged, totalAsserts, tracesValidated, time.Since(start).Seconds())
+	return 0
+}
+
+func max1(n int) int {
+	if n < 1 {
+		return 1
+	}
+	return n
+}
+
+func keys(m map[string]bool) []string {
+	out := []string{}
+	for k := range m {
+		out = append(out, k)
+	}
+	sort.Strings(out)
+	return out
+}
+
+func collectFuncs(sh *ex.Shared, out map[string][2]int) {
+	cov := map[*ssa.Function]int{}
+	sh.Blocks.Range(func(k, _ any) bool {
+		b := k.(*ssa.BasicBlock)
+		cov[b.Parent()]++
+		return true
+	})
+	for fn, n := range cov {
+		file := filepath.Base(sh.Fset.Position(fn.Pos()).Filename)
+		if strings.HasPrefix(file, "zz_verif_") || file == "" || file == "." {
+			continue
+		}
+		name := fn.String()
+		if !strings.Contains(name, "gopatchy/bkl") {
+			continue
+		}
+		name = strings.ReplaceAll(name, "github.com/gopatchy/bkl", "bkl")
+		out[name] = [2]int{n, len(fn.Blocks)}
+	}
+}
+
+func cmdSelftest(args []string) int { return selftest() }
